@@ -161,18 +161,34 @@ fn scenario(ctx: &std::sync::Arc<Ctx>) {
                     2 => {
                         // the shared buffer, possibly lexed by several threads at once
                         let buf = shared_bufs[p].clone();
-                        let res = lex_and_check(&ctx, i, &buf, "shared buffer");
-                        results.lock().unwrap().push((i, Arc::new(res)));
+                        if t % 2 == 0 {
+                            let res = lex_and_check(&ctx, i, &buf, "shared buffer");
+                            results.lock().unwrap().push((i, Arc::new(res)));
+                        } else {
+                            // published untouched: the first accessor calls on this result
+                            // are made by whichever threads walk it (possibly at once)
+                            install_budget(buf.len());
+                            let res = lex_program(&*buf).expect("lex_program returned Err");
+                            LEX_CALLS.fetch_add(1, Ordering::Relaxed);
+                            results.lock().unwrap().push((i, Arc::new(res)));
+                        }
                     }
                     _ => {
                         // walk a result another thread produced, through every accessor
                         let other = {
                             let g = results.lock().unwrap();
-                            if g.is_empty() { None } else { Some(g[(t + p) % g.len()].clone()) }
+                            if g.is_empty() {
+                                None
+                            } else if p % 2 == 0 {
+                                Some(g[g.len() - 1].clone())
+                            } else {
+                                Some(g[(t + p) % g.len()].clone())
+                            }
                         };
                         if let Some((j, res)) = other {
                             SHARED_WALKS.fetch_add(1, Ordering::Relaxed);
-                            let key = key_of(&ctx.pool[j].1, &res);
+                            let variant = ((t + p) % 4) as u32;
+                            let key = format!("R:{}", dump::hash_result_v(&ctx.pool[j].1, &res, &mut || {}, variant).hex());
                             assert!(
                                 key == ctx.pool[j].2,
                                 "C19 mismatch (walking a shared result) on source {}: expected {} got {key}",
